@@ -10,7 +10,7 @@ from ..engines import tables, midi
 from ..engines.typecase import TypeCase, events_matching
 
 
-def check(ctx: Ctx) -> None:
+def _main_check(ctx: Ctx) -> None:
     p = ctx.p
     ctx.explanation = (
         "Structural necessary conditions of C12: ACC2 in MidiTrack.to_mido_track every message adds its time to the delta "
@@ -201,3 +201,9 @@ def _block_of(n: ast.AST) -> list[ast.stmt]:
         if isinstance(b, list) and n in b:
             return b
     return [n]
+
+
+def check(ctx: Ctx) -> None:
+    _main_check(ctx)
+    from .common import view_deps
+    view_deps(ctx)
